@@ -104,9 +104,24 @@ def judge(case):
         raise ValueError("malformed case: grid")
     sut.reset(provider)
     fails = []
-    tz_src = src_tz(provider, zone)
+    lib = provider
+    if case.get("src_lib") == "other":      # the zone object comes from the other tz library than the active provider
+        lib = "pytz" if provider == "zoneinfo" else "zoneinfo"
+    tz_src = src_tz(lib, zone)
     try:
-        vt = Timezone.from_tzid(zone, tzp, first, last)
+        if case.get("pre_parse"):
+            # history: a calendar that defines '/<zone>' (slash-prefixed IANA id) with a deviating definition was parsed before
+            from icalendar import Calendar
+            Calendar.from_ical("\r\n".join(["BEGIN:VCALENDAR", "BEGIN:VTIMEZONE", f"TZID:/{zone}", "BEGIN:STANDARD", "DTSTART:19700101T000000",
+                                               "TZOFFSETFROM:+0545", "TZOFFSETTO:+0545", "TZNAME:BOGUS", "END:STANDARD", "END:VTIMEZONE", "BEGIN:VEVENT",
+                                               f"DTSTART;TZID=/{zone}:20200101T120000", "END:VEVENT", "END:VCALENDAR"]) + "\r\n")
+        if lib != provider:
+            vt = Timezone.from_tzinfo(tz_src, zone, first, last)
+        elif case.get("own_tzp"):
+            from icalendar.timezone import TZP
+            vt = Timezone.from_tzid(zone, TZP(provider), first, last)     # the rarely used explicit provider argument
+        else:
+            vt = Timezone.from_tzid(zone, tzp, first, last)
     except Exception as e:
         return [Failure("C13.generate", "from_tzid-raises/" + exc_signature(e), f"{case!r}: {e!r}"[:400])]
     # ---- well-formedness
@@ -131,7 +146,7 @@ def judge(case):
     except Exception as e:
         return fails + [Failure("C13.well-formed", "reading-the-component-raises/" + exc_signature(e), repr(e)[:300])]
     # ---- instants
-    trs = [x for x in transitions(provider, zone) if lo - timedelta(days=1) <= x[0] - timedelta(seconds=0) and x[0] <= hi + timedelta(days=1)]
+    trs = [x for x in transitions(lib, zone) if lo - timedelta(days=1) <= x[0] - timedelta(seconds=0) and x[0] <= hi + timedelta(days=1)]
     # window in UTC terms: instants t with lo <= local(t) ... keep strictly inside to avoid edge ambiguity
     margin = timedelta(days=2)
     w_lo, w_hi = lo + margin, hi - margin
@@ -162,7 +177,7 @@ def judge(case):
     big_jump = any(abs(b - a) >= 86400 for _, a, b in trs)
     for t in pts:
         want = truth(tz_src, t)
-        tag = classify(provider, trs, t)
+        tag = classify(lib, trs, t)
         i = Z.lookup(defn, ons, t)
         if i is None:
             got_a = None
@@ -190,6 +205,8 @@ def judge(case):
         tagc = "@zone-with-transitions" if (any(w_lo - margin <= t <= w_hi + margin for t, _, _ in trs) or src_dst) else ""
         try:
             again = Timezone.from_tzinfo(conv, zone, first, last)
+            if lib != provider:
+                tagc = tagc or "@zone-with-transitions"      # regenerating from the other library's conversion is not comparable
             if again.to_ical() != vt.to_ical():
                 fails.append(Failure(f"C13.regenerate{tagc}", f"regenerated-component-differs{tagc}", _first_diff(vt.to_ical(), again.to_ical())))
         except Exception as e:
@@ -236,7 +253,8 @@ def _first_diff(a, b):
 
 def info(case):
     lo, hi = datetime(*case["first"]), datetime(*case["last"])
-    trs = [x for x in transitions(case["provider"], case["zone"]) if lo + timedelta(days=2) <= x[0] <= hi - timedelta(days=2)]
+    lib = case["provider"] if case.get("src_lib") != "other" else ("pytz" if case["provider"] == "zoneinfo" else "zoneinfo")
+    trs = [x for x in transitions(lib, case["zone"]) if lo + timedelta(days=2) <= x[0] <= hi - timedelta(days=2)]
     classes = ["provider:" + case["provider"], "has-transition" if trs else "no-transition"]
     if trs:
         classes.append("instant:at-transition")
@@ -261,7 +279,9 @@ def cases(draw, grid_days=5):
     last = [y1, draw(st.integers(1, 12)), draw(st.integers(1, 28))]
     if not date(*first) < date(*last):
         last = [y0 + 1, first[1], first[2]]
-    return {"provider": draw(st.sampled_from(["zoneinfo", "pytz"])), "zone": zone, "first": first, "last": last, "grid_days": grid_days}
+    return {"provider": draw(st.sampled_from(["zoneinfo", "pytz"])), "zone": zone, "first": first, "last": last, "grid_days": grid_days,
+            "src_lib": draw(st.sampled_from(["provider", "provider", "other"])), "pre_parse": draw(st.sampled_from([False, False, True])),
+            "own_tzp": draw(st.booleans())}
 
 
 def streams(tier):
